@@ -236,7 +236,7 @@ pub unsafe extern "C" fn write(fd: c_int, buf: *const c_void, n: size_t) -> ssiz
     if let Some((_, rel)) = &info {
         if let Some(e) = mutating(&format!("write\t{rel}\t{n}")) {
             if n >= 2 && FAIL_SHORT.swap(false, Ordering::SeqCst) {
-                let bytes = std::slice::from_raw_parts(buf as *const u8, n);
+                let bytes = unsafe { std::slice::from_raw_parts(buf as *const u8, n) };
                 let sel = CUT_SEL.load(Ordering::Relaxed);
                 let lines: Vec<usize> = bytes.iter().enumerate().filter(|(i, b)| **b == b'\n' && *i + 1 < n).map(|(i, _)| i + 1).collect();
                 let keep = if sel % 2 == 0 && !lines.is_empty() { lines[((sel >> 1) % lines.len() as u64) as usize] } else { 1 + ((sel >> 1) % (n as u64 - 1)) as usize };
